@@ -68,7 +68,10 @@ inline json dump_program(const Theo::Program& p) {
   json sites = json::array();
   for (auto& e : p.line_info)
     sites.push_back({{"i", e.first}, {"file", e.second.file}, {"line", e.second.line}});
-  return {{"code", code}, {"maps", maps}, {"pbs", pbs}, {"sites", sites}};
+  // the public list of available locations, asked of the very object the compiler returned
+  json avail = json::array();
+  for (auto& b : const_cast<Theo::Program&>(p).getAvailableBreakpoints()) avail.push_back({b.file, b.line});
+  return {{"code", code}, {"maps", maps}, {"pbs", pbs}, {"sites", sites}, {"avail", avail}};
 }
 
 inline std::string unhex(const std::string& h) {
